@@ -25,7 +25,7 @@ from prompt_toolkit.utils import take_using_weights
 
 ID = "C12"
 DRIVER = "drv_c12"
-PROPS = ["Ptk.Props.C12", "Ptk.Props.C12Tree", "Ptk.Props.C12Orig", "Ptk.Props.C12Gen", "Ptk.Props.C12Loop", "Ptk.Props.C12Grow"]
+PROPS = ["Ptk.Props.C12", "Ptk.Props.C12Session", "Ptk.Props.C12Tree", "Ptk.Props.C12Orig", "Ptk.Props.C12Gen", "Ptk.Props.C12Loop", "Ptk.Props.C12Grow"]
 LEVEL_TEXT = ("Lean 4 theorems over an executable model of Dimension, take_using_weights (explicit stream state "
               "machine, integer cross-multiplication), _child_generators/_grow_sizes and the two divide functions: "
               "termination for every list of valid dimensions incl. weight 0 (from a fairness theorem for the "
@@ -43,7 +43,9 @@ RULE = ("exhaustive: every list of <= N children over all valid (min<=preferred<
         "unspecified fields, larger sizes/weights, all alignments, int and Dimension paddings, is_done, and "
         "write_to_screen positions; plus direct cases for Dimension(), sum/max_layout_dimensions and "
         "take_using_weights; random trees of nested HSplit/VSplit/Window (depth <= 3) compared window by window in "
-        "drawing order; a case is non-trivial when at least one division has to grow a child")
+        "drawing order; sessions on ONE HSplit/VSplit object (children with callable dimensions) divided/rendered "
+        "2-4 times while requirements, children list, available size (mostly unchanged) and align change; "
+        "a case is non-trivial when at least one division has to grow a child")
 EXHAUSTIVE = True
 EXHAUSTIVE_SCOPE = {
     "quick": "children<=2 over min in {0,1}, preferred<=2, max in {..2,unbounded}, weight in {0,1,2}; children=3 over "
@@ -221,9 +223,42 @@ def build(case):
     padding = pad if isinstance(pad, int) else mkD(pad)
     if case["dir"] == "h":
         return HSplit([Window(height=mkD(s)) for s in case["children"]], padding=padding,
-                      align=VALIGN[case["align"]])
+                      padding_char=PAD_CHAR, align=VALIGN[case["align"]])
     return VSplit([Window(width=mkD(s)) for s in case["children"]], padding=padding,
-                  align=HALIGN[case["align"]])
+                  padding_char=PAD_CHAR, align=HALIGN[case["align"]])
+
+
+PAD_CHAR = "#"  # lets the oracle tell the padding windows of a split from its fillers
+
+
+class Session:
+    """ONE split object whose children report whatever `self.cur[id]` currently holds
+    (Window(width=lambda: ...)); every call may edit the children list and the requirements."""
+
+    def __init__(self, case):
+        self.dir = case["dir"]
+        self.cur = {}
+        self.wins = {}
+        first = case["calls"][0]
+        pad = first["pad"]
+        padding = pad if isinstance(pad, int) else mkD(pad)
+        if self.dir == "h":
+            self.split = HSplit([], padding=padding, padding_char=PAD_CHAR, align=VALIGN[first["align"]])
+        else:
+            self.split = VSplit([], padding=padding, padding_char=PAD_CHAR, align=HALIGN[first["align"]])
+
+    def window(self, wid):
+        if wid not in self.wins:
+            get = lambda wid=wid: self.cur[wid]  # noqa: E731
+            self.wins[wid] = Window(height=get) if self.dir == "h" else Window(width=get)
+        return self.wins[wid]
+
+    def prepare(self, call):
+        for wid, spec in call["children"]:
+            self.cur[wid] = mkD(spec)
+        self.split.children = [self.window(wid) for wid, _ in call["children"]]
+        self.split.align = (VALIGN if self.dir == "h" else HALIGN)[call["align"]]
+        return {"dir": self.dir, "done": call["done"], "wp": call.get("wp")}
 
 
 def real_divide(split, case, avail):
@@ -282,6 +317,12 @@ def model_lines(case):
         x, y, w, h = case["wp"]
         tt = tree_tokens(case["tree"])
         return [f"tree {x} {y} {w} {h} {tt}", f"tpw {w} {tt}", f"tph {w} {h} {tt}"]
+    if k == "reuse":
+        toks = [f"sess {case['dir']} {len(case['calls'])}"]
+        for c in case["calls"]:
+            toks.append(f"{c['align']} {c['done']} {c['avail']} {spec_tokens(pad_spec(c['pad']))} {len(c['children'])}"
+                        + "".join(f" {wid} {spec_tokens(sp)}" for wid, sp in c["children"]))
+        return [" ".join(toks)]
     out = []
     for a in case["avails"]:
         out.append(f"div {case['dir']} {case['align']} {case['done']} {a} {req_tokens(case)}")
@@ -359,6 +400,18 @@ def impl_lines(case):
         ws = case["weights"]
         r = guarded(lambda: list(itertools.islice(take_using_weights(list(range(len(ws))), ws), case["k"])))
         return [enc_res(r)]
+    if k == "reuse":
+        outs = []
+        with done_ctx(False):
+            ses = Session(case)
+            for c in case["calls"]:
+                pc = ses.prepare(c)
+                app().future = _DONE if c["done"] else None
+                r = guarded(lambda: real_divide(ses.split, pc, c["avail"]))
+                outs.append(enc_res(r))
+                if r[0] == "hang":
+                    break
+        return [" ; ".join(outs)]
     if k == "tree":
         with done_ctx(False):
             r, items, root = real_tree(case)
@@ -439,6 +492,49 @@ def check_divide(name, dims, avail, done, res):
     goal = min(avail, sum(prefs) if done else sum(maxs))
     if sum(sizes) != goal:
         bad(f"space not used ({zero})", f"sum(sizes)={sum(sizes)} but children could take {goal}")
+    return v
+
+
+def check_structure(cls, split, horiz, avail, res):
+    """Independent of how _all_children was built: the children stand in their listed order with
+    exactly one padding between two neighbours, fillers only at the two ends; and 'too small' is
+    reported exactly when the children's minimums plus (n-1) paddings do not fit."""
+    v = []
+    kids = split.children
+    tags = []
+    for c in split._all_children:
+        idx = next((i for i, k in enumerate(kids) if k is c), None)
+        if idx is not None:
+            tags.append(idx)
+        elif isinstance(c, Window) and c.char == PAD_CHAR:
+            tags.append("p")
+        else:
+            tags.append("f")
+    core_tags = list(tags)
+    if core_tags and core_tags[0] == "f":
+        core_tags.pop(0)
+    if core_tags and core_tags[-1] == "f":
+        core_tags.pop()
+    expect = []
+    for i in range(len(kids)):
+        if i:
+            expect.append("p")
+        expect.append(i)
+    if core_tags != expect and not (not kids and core_tags == []):
+        v.append({"signature": f"{cls}._all_children | children not adjacent in order (stray padding or filler region)",
+                  "msg": f"regions {tags} for {len(kids)} children (f=filler, p=padding), expected {expect} "
+                         f"between optional fillers; align={split.align} padding={split.padding!r}"})
+    if res[0] == "ok":
+        from prompt_toolkit.layout.dimension import to_dimension
+        if horiz:
+            mins = [k.preferred_height(7, avail).min for k in kids]
+        else:
+            mins = [k.preferred_width(avail).min for k in kids]
+        need = sum(mins) + max(len(kids) - 1, 0) * to_dimension(split.padding).min
+        if (res[1] is None) != (need > avail):
+            v.append({"signature": f"{cls} | too-small report (children minimums plus (n-1) paddings)",
+                      "msg": f"children minimums {mins} with padding {split.padding!r} need {need}, available {avail}: "
+                             f"returned {res[1]}; align={split.align}"})
     return v
 
 
@@ -526,6 +622,43 @@ def oracle(case):
             elif any(ws[i] == 0 for i in r[1]):
                 v.append({"signature": "take_using_weights | zero-weight item yielded", "msg": f"{ws} -> {r}"})
         return v
+    if k == "reuse":
+        horiz = case["dir"] == "h"
+        name = "HSplit._divide_heights" if horiz else "VSplit._divide_widths"
+        wname = "HSplit.write_to_screen" if horiz else "VSplit.write_to_screen"
+        with done_ctx(False):
+            ses = Session(case)
+            for n, c in enumerate(case["calls"]):
+                pc = ses.prepare(c)
+                app().future = _DONE if c["done"] else None
+                a = c["avail"]
+                dims = real_dims(ses.split, pc, a)
+                if horiz and not ses.split.children:
+                    dims = []
+                res = guarded(lambda: real_divide(ses.split, pc, a))
+                found = check_divide(name, dims, a, bool(c["done"]) and horiz, res)
+                if res[0] == "hang":
+                    v += found
+                    break
+                found += check_structure(name.split(".")[0], ses.split, horiz, a, res)
+                if c.get("wp"):
+                    r, vis = draw(ses.split, pc)
+                    if r[0] == "ok":
+                        found += check_layout(wname, ses.split, pc, vis)
+                    else:
+                        found.append({"signature": f"{wname} | {'does not terminate' if r[0] == 'hang' else 'raises ' + str(r[1])}",
+                                      "msg": str(case)})
+                for f in found:
+                    # the failing region: the result depends on what the same object divided before
+                    f["signature"] += " | reused split object" if n else ""
+                    f["msg"] = f"call {n} of a session on one {name.split('.')[0]}: " + f["msg"]
+                v += found
+        seen, out = set(), []
+        for x in v:
+            if x["signature"] not in seen:
+                seen.add(x["signature"])
+                out.append(x)
+        return out
     if k == "tree":
         with done_ctx(False):
             r, items, _root = real_tree(case)
@@ -560,6 +693,7 @@ def oracle(case):
             v += check_divide(name, dims, a, bool(case["done"]) and case["dir"] == "h", res)
             if res[0] == "hang":
                 return v
+            v += check_structure(name.split(".")[0], split, case["dir"] == "h", a, res)
         if case.get("wp"):
             r, vis = draw(split, case)
             if r[0] == "hang":
@@ -667,6 +801,36 @@ def cases(tier, rng):
                "avails": [a, rng.choice(avails)], "done": rng.randrange(2) if d == "h" else 0,
                "wp": [rng.randrange(3), rng.randrange(3), a if d == "v" else rng.randrange(0, 4),
                       a if d == "h" else rng.randrange(0, 4)]}
+    # --- ONE split object reused: the requirements of its children change between the calls
+    #     exhaustive: every pair of single-child requirements, same object, same available size
+    for a in mid:
+        for b in mid:
+            d = "hv"[(mid.index(a) + mid.index(b)) % 2]
+            yield {"kind": "reuse", "dir": d, "calls": [
+                {"align": 3, "pad": 0, "children": [[1, x]], "avail": 2, "done": 0} for x in (a, b, a)]}
+    for _ in range(2500 if quick else 30000):
+        d = rng.choice("hv")
+        al = rng.randrange(4)
+        pad = rand_pad(rng)
+        ids = [1, 2, 3]
+        chosen = ids[:rng.choice([1, 2, 2, 3])]
+        avail = rng.choice([0, 3, 6, 10, 20, rng.randrange(0, 40)])
+        calls = []
+        for _c in range(rng.choice([2, 3, 4])):
+            r = rng.randrange(10)
+            if r == 0:      # edit the children list (object identities change -> _children_cache miss)
+                chosen = rng.sample(ids, rng.choice([0, 1, 2, 3]))
+            if r == 1:      # a different available size
+                avail = rng.randrange(0, 40)
+            if r == 2:      # reassign `align` while the children tuple may stay cached (as the code is)
+                al = rng.randrange(4)
+            big = rng.randrange(3) == 0
+            a = avail
+            calls.append({"align": al, "pad": pad, "children": [[i, rand_spec(rng, big)] for i in chosen],
+                          "avail": a, "done": 1 if (d == "h" and rng.randrange(6) == 0) else 0,
+                          "wp": [rng.randrange(3), rng.randrange(3), a if d == "v" else rng.randrange(0, 5),
+                                 a if d == "h" else rng.randrange(0, 5)] if rng.randrange(3) == 0 else None})
+        yield {"kind": "reuse", "dir": d, "calls": calls}
     # --- nested containers (random trees of depth <= 3, <= 3 children per split)
     for _ in range(1500 if quick else 20000):
         t = rand_tree(rng, rng.choice([1, 2, 3]), [0])
@@ -693,6 +857,8 @@ def sample_view(case):
 
 
 def nontrivial(case):
+    if case["kind"] == "reuse":
+        return len(case["calls"]) > 1 and any(c["children"] for c in case["calls"])
     if case["kind"] == "tree":
         return tree_size(case["tree"]) > 1 and case["wp"][2] > 0 and case["wp"][3] > 0
     if case["kind"] != "split":
@@ -705,6 +871,10 @@ def distribution(cases):
          "done": 0, "max_avail": 0, "tree_nodes": {}}
     for c in cases:
         d["kind"][c["kind"]] = d["kind"].get(c["kind"], 0) + 1
+        if c["kind"] == "reuse":
+            same = sum(1 for x, y in zip(c["calls"], c["calls"][1:]) if x["avail"] == y["avail"])
+            d["reuse_same_avail_steps"] = d.get("reuse_same_avail_steps", 0) + same
+            continue
         if c["kind"] == "tree":
             n = tree_size(c["tree"])
             key = str(n) if n < 8 else "8+"
